@@ -1,3 +1,4 @@
+from decimal import Decimal
 from typing import Union
 
 from pydbml.classes import Column, Enum, Expression
@@ -14,6 +15,10 @@ def default_to_str(val: Union[Expression, str, int, float]) -> str:
             return f"'{prepare_text_for_dbml(val)}'"
     elif isinstance(val, Expression):
         return val.dbml
+    elif isinstance(val, float) and 'e' in repr(val):
+        # DBML numbers have no exponent: 1e-05 -> 0.00001
+        text = format(Decimal(repr(val)), 'f')
+        return text if '.' in text else text + '.0'
     else:  # int or float or bool
         return str(val)
 
